@@ -3,9 +3,14 @@
    correspondence check is gamma (C22_members); the union of two intervals (union / least_upper_bound / _union, i.e.
    pseudo_join with its ten cases: containment either way, TOP operands, covering the circle, overlapping, disjoint with the
    choice of the join with fewer values) contains every member of both operands, for every width and all operands
-   (C22_union).  least_upper_bound of three or more intervals, meet, widening, eval/min/max/solution are not modelled;
-   they are covered by the sweep of the real code only. *)
+   (C22_union).  The queries that read the (lower, upper) pairs of _unsigned_bounds / _signed_bounds (Model/SIQuery.v):
+   unsigned min is exactly the least member (C22_min_exact); unsigned eval lists members only (C22_eval_members); max is an
+   upper bound and min a lower bound of every member in either signedness (C22_max_upper_partial, C22_min_lower_partial:
+   partial, because max is not always a member -- C22_max_not_member_refuted, a known finding).
+   least_upper_bound of three or more intervals, meet, widening and solution are not modelled; they are covered by the
+   sweep of the real code only. *)
 Require Import CV.Model.PyPrelude CV.Model.SI CV.Model.SIUnion CV.Proofs.SISound CV.Proofs.SIUnionSound.
+Require Import CV.Model.SICmp CV.Model.SIQuery CV.Proofs.SIQuerySound.
 From Coq Require Import ZArith List.
 Open Scope Z_scope.
 
@@ -23,3 +28,26 @@ Theorem C22_union : forall a b, wf a -> wf b -> bits a = bits b ->
   exists r, si_union a b = Ok r /\ wf r /\ bits r = bits a /\ forall x, gamma a x \/ gamma b x -> gamma r x.
 Proof. exact union_sound. Qed.
 Print Assumptions C22_union.
+
+Theorem C22_min_exact : forall a m, wf a -> stride a < 2 ^ bits a -> si_min false a = Ok m ->
+  gamma a m /\ forall x, gamma a x -> m <= x.
+Proof. exact min_exact. Qed.
+Print Assumptions C22_min_exact.
+
+Theorem C22_eval_members : forall a n vs v, wf a -> stride a < 2 ^ bits a -> si_eval false a n = Ok vs -> In v vs -> gamma a v.
+Proof. exact eval_sound. Qed.
+Print Assumptions C22_eval_members.
+
+(* partial: the full statement "max returns the greatest member" is false of the code (next theorem) *)
+Theorem C22_max_upper_partial : forall sg a m x, wf a -> si_max sg a = Ok m -> gamma a x -> rd sg a x <= m.
+Proof. exact max_upper. Qed.
+Print Assumptions C22_max_upper_partial.
+
+Theorem C22_min_lower_partial : forall sg a m x, wf a -> si_min sg a = Ok m -> gamma a x -> m <= rd sg a x.
+Proof. exact min_lower. Qed.
+Print Assumptions C22_min_lower_partial.
+
+Theorem C22_max_not_member_refuted :
+  let a := mkSI 4 2 0 5 false in wf a /\ si_max false a = Ok 5 /\ ~ In 5 (members a).
+Proof. exact max_not_member_refuted. Qed.
+Print Assumptions C22_max_not_member_refuted.
